@@ -277,3 +277,18 @@ def units(prop, tier):
 #   (its CBC object starts at the chaining value with nothing fed); copy() itself is proved: new object, new native CBC object
 #   standing at the same chaining value, new cache bytearray, all other fields equal, original unchanged.
 # NOT PROVED: hexdigest / hexverify (string formatting, binascii: outside the subset).
+#
+# Vacuity / strength check (tools/mut.py, quick tier, 2026-09-26): semantic mutants -> exit 1 on the named obligation; benign -> exit 0.
+#   C03  __init__: `const_Rb = 0x87` -> `0x86`                          -> __init__.lemma.k1_hi, .k2_hi
+#   C03  digest: `strxor(self._last_pt, self._k1)` -> `self._k2`        -> digest.lemma.parts
+#   C03  digest: padding byte `\x80` -> `\x81`                          -> digest.lemma.parts
+#   C03  digest: `self._data_size > 0` -> `> 16` (complete-block rule)  -> digest.lemma.parts
+#   C03  verify: `data=mac_tag` -> `mac_tag[:4]`                        -> verify.raises_iff.ValueError.if / .only_if
+#   C03  benign: `_shift_bytes` local `num` renamed `shifted`           -> exit 0
+#   C09  update: `self._cache_n += filler` -> `= filler`                -> update.ensures.message, .inv_size
+#   C09  _update: `ct[-bs*2:-bs]` -> `ct[-bs:]`                         -> _update.ensures.last_pt
+#   C09  update: whole blocks of the rest dropped (`msg[:-remain][:0]`) -> update.ensures.message, .inv_size
+#   C10  update: refusal guard -> `if False`                            -> update.ensures.inv_tag (state `digested`)
+#   C19  copy: `obj._cache = self._cache` (shared cache)                -> copy.ensures.fresh_cache
+#   C19  copy: CBC object rebuilt from a zero IV instead of `_last_ct`  -> copy.ensures.chaining
+#   C19  copy: `obj._cbc = self._cbc` (shared native object)            -> copy.ensures.fresh_cbc
